@@ -70,6 +70,19 @@ export ls: str = "lib"
 export lf: fn(int) -> int = fn(a: int) -> int {
   return a * 2
 }
+export class Lk {
+  v: int
+  constructor(self, v: int) {
+    self.v = v
+  }
+  fn getv(self) -> int {
+    return self.v
+  }
+}
+export lk: Lk = Lk(5)
+export lshow: fn(Lk) -> int = fn(k: Lk) -> int {
+  return k.v
+}
 '''
 
 POOL = {
@@ -633,6 +646,23 @@ class G:
                    ("wrong_init", ["x%d = lib.lf(1)" % n, "y%d: str = lib.lv" % n], (1, 1), "str <- imported int"),
                    ("arg_count_more", ["x%d = lib.lf(1, 2)" % n, "y%d: int = lib.lv" % n], (0, 0), "imported fn 1 -> 2")])
 
+    def t_lib_class(self):
+        """an exported CLASS and an exported INSTANCE of it: `lib.Lk` read without a call is the class's constructor (a function),
+        `lib.lk` an object -- one is not acceptable where the other is required (hunt2 B/5)"""
+        n = self.uid()
+        base = ["p%d = lib.lshow(lib.lk)" % n, "q%d: int = lib.lk.v" % n, "r%d = lib.lk.getv()" % n, "s%d = lib.lk" % n,
+                "s%d = lib.Lk(%s)" % (n, self.r.choice(["6", "gi", "(1 + 2)"]))]
+
+        def mut(i, line):
+            b = list(base)
+            b[i] = line
+            return b
+        return St("module_class", base,
+                  [("wrong_arg_type", mut(0, "p%d = lib.lshow(lib.Lk)" % n), (0, 0), "imported fn Lk <- the class itself (its constructor) read through the module"),
+                   ("unknown_field", mut(1, "q%d: int = lib.Lk.v" % n), (1, 1), "field of an instance looked up on the class read through the module"),
+                   ("unknown_field", mut(2, "r%d = lib.Lk.getv()" % n), (2, 2), "method of an instance looked up on the class read through the module"),
+                   ("wrong_reassign", mut(4, "s%d = lib.Lk" % n), (4, 4), "Lk (an object) <- the class itself read through the module")])
+
     TEMPLATES = ["t_decl_annot", "t_decl_alias", "t_decl_optional", "t_reassign", "t_call1", "t_call2", "t_mcall", "t_field",
                  "t_fn_ret", "t_fn_void", "t_cond_if", "t_cond_while", "t_cond_elseif", "t_index_list", "t_index_map", "t_binop",
                  "t_unary", "t_map_value", "t_list_elem", "t_class_def", "t_opassign_fit", "t_fn_ret_shapes", "t_fixed_list", "t_obj_field", "t_index_write", "t_fn_typed",
@@ -679,7 +709,7 @@ class G:
                 kind = self.r.choice(self.CONTEXTS[1:])
                 items += self.ctx(kind, self.random_items(depth + 1))
             else:
-                ts = self.TEMPLATES + (["t_lib"] if self.with_lib else [])
+                ts = self.TEMPLATES + (["t_lib", "t_lib_class"] if self.with_lib else [])
                 items.append(self.unit(self.r.choice(ts)))
         return items
 
@@ -1195,8 +1225,8 @@ def run(ctx):
     # ---- programs: (a) the full matrix template x context, (b) random nested programs
     progs = []      # (items, with_lib, generator)
     for kind in G.CONTEXTS:
-        for tname in G.TEMPLATES + ["t_lib"]:
-            g = G(rng, with_lib=(tname == "t_lib"))
+        for tname in G.TEMPLATES + ["t_lib", "t_lib_class"]:
+            g = G(rng, with_lib=tname.startswith("t_lib"))
             progs.append((g.ctx(kind, [g.unit(tname)]), g.with_lib, "matrix"))
     nrand = 0 if ctx.quick() else 400
     for i in range(nrand):
